@@ -8,6 +8,9 @@ Scenario:  <cli> <rethrow> <filter> <runign> <repeat> <ntests> { <ignored> <sel>
             :n no-op, :c passing check, :x C++-style failing check, :j C-style (longjmp) failing check, :s throw std::runtime_error, :o throw int;
             ":r c k A B" = static state in the test: behaves as A in the repetitions whose number (from 0) satisfies c k, as B in the others;
             a conditional plugin line is reported only in the matching repetitions; <repeat> is the number after -r, -r0 repeats twice)
+           optional suffix ":io <sink> <sep> <verbose> <color> <cap>" = console mode: the run goes through CommandLineTestRunner, the real
+            ConsoleTestOutput and the real stdio stream; descriptor 1 is a pipe (sink 1) or a regular file (sink 2), stdout fully buffered
+            with <cap> bytes, -p (every test in a forked child) / -v / -c as given; the observation is read back from the captured bytes
 Observation: see harness/C01.cpp."""
 import itertools
 ID = "C01"
@@ -23,6 +26,11 @@ RULE = ("programs of 0-60 scripted tests, phases of 0-5 statements; every assert
         "programs whose behaviour depends on the repetition (static state): a failure of every kind x phase only in the first / a middle / the last "
         "of 2-4 repetitions, in all but one, from / up to a repetition, two tests failing in different repetitions, different failure kinds in "
         "different repetitions, alone and next to ignored / filtered-out / run-ignored tests, and random programs with conditional statements; "
+        "console mode: the same programs through CommandLineTestRunner, the REAL ConsoleTestOutput and a fully buffered stdio stream whose descriptor "
+        "is a pipe or a regular file, in one process and with every test in a forked child (-p), x -v x -c x buffer capacities 1 byte - 64 KiB, "
+        "the captured bytes read back: every failure kind x phase in a child, runs of failing tests (the runner has printed before it forks), several "
+        "repetitions (a summary has been printed before the next forks), children that print more than a buffer holds, ignored / filtered-out tests, "
+        "every assert entry point failing in a child, random programs; "
         "flavour noexc (-fno-exceptions) judges the programs without throw statements. "
         "non-trivial = at least one test that is started has a failing statement, an escaping exception or a plugin failure")
 ASSUMPTIONS = ["rethrowExceptions off (-e / -ci) whenever a program can throw: DESIGN C01 scope decision",
@@ -35,7 +43,13 @@ ASSUMPTIONS = ["rethrowExceptions off (-e / -ci) whenever a program can throw: D
                "argument (the current NormalTestTerminator), the C-interface functions fix TestTerminatorWithoutExceptions themselves",
                "repetition-dependent behaviour is a function of the repetition number only: the scripted test reads its own static creation counter, "
                "the plugin its own call counters (equal to the runner's loop counter because every started test is created once per repetition); "
-               "the number after -r is read as CommandLineArguments::setRepeatCount does (-r0 repeats twice)"]
+               "the number after -r is read as CommandLineArguments::setRepeatCount does (-r0 repeats twice)",
+               "console mode: fork / _exit / exit / fflush / a full buffer obey the C library's contract for a buffered stream (the buffer is process "
+               "memory; the descriptor and its offset are shared); the model's buffer holds whole records and a capacity in records, the real one bytes "
+               "(a record may be cut in the middle); the harness flushes the stream after the run as exit() would; a child that crashes is outside "
+               "the quantifier; under -p the scripted tests read the registry's repetition counter (their own statics die with the child); of the "
+               "summary of a -p run the verdict, whether it reports failures, and tests / ran / ignored / filtered out are judged -- the checks "
+               "figure and the number of failures are the runner's own (the counters of a child die with it: 0 checks, one failure per failed test)"]
 PER_TIMEOUT = 30.0
 KINDS = ["x", "j", "s", "o"]
 # check kinds (harness/C01.cpp CKNAMES, coq/C01_Model.v ckind)
@@ -91,8 +105,9 @@ def rline(op, k, line):
     return ":r :%s %x %x" % (op, k, line)
 
 
-def scn(tests, cli=0, rethrow=0, filt=0, runign=0, repeat=1):
-    return " ".join(["%x %x %x %x %x" % (cli, rethrow, filt, runign, repeat), lst(tests)])
+def scn(tests, cli=0, rethrow=0, filt=0, runign=0, repeat=1, io=None):
+    """io = (sink, sep, verbose, color, cap) or None"""
+    return " ".join(["%x %x %x %x %x" % (cli, rethrow, filt, runign, repeat), lst(tests)] + ([":io %x %x %x %x %x" % tuple(io)] if io else []))
 
 
 PASS = lambda: test(body=[":c", ":n"])
@@ -251,6 +266,80 @@ def check_kinds(tier, rng):
     return out
 
 
+CAPS = [0x1000, 0x40, 0x10000, 0x1000, 0x100, 1, 0x2000]       # stdio buffer sizes: the usual one of a file / pipe, tiny, huge, ...
+
+
+def io_modes(rng, sep=None):
+    """endless rotation over sink x -p x -v x -c x buffer capacity (every combination of the first four comes by within 16 draws)"""
+    n = rng.randrange(16)
+    while True:
+        n += 1
+        yield (1 + n % 2, (n // 2) % 2 if sep is None else sep, (n // 4) % 2, (n // 8) % 2, CAPS[n % len(CAPS)])
+
+
+def console(tier, rng):
+    """the bytes that reach standard output through the real ConsoleTestOutput: pipe / regular file (full buffering), one process / every test
+    in a forked child (-p), -v / -c, buffer capacities; aimed at output that is in a stdio buffer when a process forks or leaves"""
+    out = []
+    any_mode = io_modes(rng)
+    sep_mode = io_modes(rng, sep=1)
+    # every failure kind x phase (plugin pre / post included) in a child and in one process, between passing tests
+    for (kind, phase) in KIND_PHASE:
+        for m in (next(sep_mode), next(sep_mode), next(any_mode)):
+            out.append(scn([PASS(), failing_test(kind, phase, rng), PASS()], cli=1, io=m))
+        out.append(scn([failing_test(kind, phase, rng)], cli=1, io=(2, 1, 0, 0, 0x1000)))       # the plain CI case: -p, stdout a file
+    # nothing fails; nothing runs; empty registry; ignored / filtered-out tests next to a failing one (an ignored test is not forked)
+    for m in (next(sep_mode), next(any_mode), next(sep_mode)):
+        out.append(scn([PASS(), PASS()], cli=1, io=m))
+        out.append(scn([], cli=1, io=m))
+        out.append(scn([test(sel=0, body=[":x 0 5"])], cli=1, filt=1, io=m))
+        out.append(scn([test(ign=1, body=[":x 0 5"]), failing_test("x", 1, rng), test(sel=0, body=[":j 0 6"]), PASS()], cli=1, filt=1, io=m))
+        out.append(scn([test(ign=1, body=[":x 0 5"]), PASS()], cli=1, runign=1, io=m))
+    # several failing tests in a row: the runner's record of test k is printed before the fork of test k+1 (and the summary of a
+    # repetition before the forks of the next one); long runs beyond the 10 jump-buffer slots
+    for kind in KINDS:
+        for n in (2, 3, rng.randrange(12, 20)):
+            out.append(scn([failing_test(kind, rng.randrange(3), rng) for _ in range(n)] + [PASS()], cli=1, repeat=rng.choice([1, 2]), io=next(sep_mode)))
+    for R in (2, 3, 0):
+        for m in (next(sep_mode), next(any_mode)):
+            out.append(scn([failing_test("x", 1, rng), PASS(), failing_test("j", 2, rng)], cli=1, repeat=R, io=m))
+            # static state: the failure only in one repetition (under -p the scripted test reads the registry's repetition counter)
+            pos = rng.randrange(R if R else 2)
+            out.append(scn([PASS(), failing_test(rng.choice(KINDS), rng.randrange(3), rng, when=("eq", pos))], cli=1, repeat=R, io=m))
+            out.append(scn([failing_test("x", rng.choice([3, 4]), when=("ne", pos)), PASS()], cli=1, repeat=R, io=m))
+    # a child that prints more than a buffer holds: many plugin failures around a failing test
+    for npl in (30, 120):
+        for m in (next(sep_mode), next(sep_mode)):
+            out.append(scn([failing_test("x", 1, rng), test(line=100, body=[":c", ":x 1 77"], pre=list(range(200, 200 + npl)), post=list(range(500, 500 + npl // 2))), PASS()], cli=1, io=m))
+    # every assert entry point failing inside a child, the record at the location it was handed
+    for j, kind in enumerate(CK_NAMES):
+        line = (110, 109, 111)[j % 3]
+        out.append(scn([PASS(), test(line=100, setup=[":c"], body=[":c", ck(kind, 0, line, j % 2), ":c"], teardown=[":c"])], cli=1, io=next(sep_mode)))
+    # two failing phases in one child; all three
+    for (k1, k2) in itertools.product(KINDS, KINDS):
+        t = test(setup=[":c"], body=[st(k1), ":c"], teardown=[":n", st(k2)], pre=[7] if k1 == k2 else [], post=[9] if k1 == "x" else [])
+        out.append(scn([t, PASS()], cli=1, io=next(sep_mode)))
+    # random programs
+    n = 60 if tier == "quick" else 2500
+    for _ in range(n):
+        nt = rng.choice([0, 1, 2, 3, 5, 8, 13, 20])
+        pfail = rng.choice([0.0, 0.15, 0.3, 0.6, 0.9])
+        filt = int(rng.random() < 0.3)
+        repeat = rng.choice([1, 1, 2, 3, 0])
+        prep = rng.choice([0, 0.2, 0.5]) if repeat != 1 else 0
+        tests = [rand_test(rng, pfail, rng.random() < 0.6, pign=rng.choice([0, 0.1, 0.5]), pout=rng.choice([0, 0.1, 0.5, 1.0]) if filt else 0.1, prep=prep) for _ in range(nt)]
+        out.append(scn(tests, cli=1, filt=filt, runign=int(rng.random() < 0.3), repeat=repeat, io=next(sep_mode) if rng.random() < 0.6 else next(any_mode)))
+    if tier == "thorough":
+        for (kind, phase) in KIND_PHASE:
+            for sink in (1, 2):
+                for sep in (0, 1):
+                    for (v, c) in ((0, 0), (1, 0), (0, 1), (1, 1)):
+                        for cap in (1, 0x40, 0x1000, 0x10000):
+                            out.append(scn([PASS(), failing_test(kind, phase, rng), failing_test(rng.choice(KINDS), rng.randrange(3), rng)],
+                                           cli=1, repeat=rng.choice([1, 1, 2]), io=(sink, sep, v, c, cap)))
+    return out
+
+
 def rand_phase(rng, pfail, line, allow_throw=True, prep=0.0):
     n = rng.choice([0, 1, 1, 2, 2, 3, 4, 5])
     out = []
@@ -320,6 +409,7 @@ def generate(tier, rng):
         out.append(scn([t] * 12, cli=rng.randrange(2)))
     out += rep_dependent(tier, rng)
     out += check_kinds(tier, rng)
+    out += console(tier, rng)
     # random programs
     n = 260 if tier == "quick" else 12000
     for _ in range(n):
@@ -408,6 +498,10 @@ def parse(s):
         ph = [[stmt() for _k in range(int(nxt(), 16))] for _p in range(3)]
         pp = [[pline() for _k in range(int(nxt(), 16))] for _p in range(2)]
         tests.append(dict(ign=ign, sel=sel, line=line, ph=ph, pre=pp[0], post=pp[1]))
+    io = None
+    if pos[0] < len(t) and t[pos[0]] == ":io":
+        io = [int(x, 16) for x in t[pos[0] + 1:pos[0] + 6]]
+    cfg.append(io)       # cfg[5]: None, or [sink, sep, verbose, color, cap] of the console mode
     return cfg, tests
 
 
@@ -422,7 +516,7 @@ def unparse(cfg, tests):
         return rline(x[1], x[2], x[3]) if isinstance(x, tuple) else x
     return scn([test(t["ign"], t["sel"], t["line"], [stok(x) for x in t["ph"][0]], [stok(x) for x in t["ph"][1]],
                      [stok(x) for x in t["ph"][2]], [ptok(x) for x in t["pre"]], [ptok(x) for x in t["post"]]) for t in tests],
-               cli=cfg[0], rethrow=cfg[1], filt=cfg[2], runign=cfg[3], repeat=cfg[4])
+               cli=cfg[0], rethrow=cfg[1], filt=cfg[2], runign=cfg[3], repeat=cfg[4], io=cfg[5] if len(cfg) > 5 else None)
 
 
 def b_passes(b):
@@ -503,6 +597,19 @@ def classify(s):
     lab = ["mode=" + ("cli" if cfg[0] else "registry"), "repeat=%d" % cfg[4], "tests=%s" % ("0" if not tests else "1" if len(tests) == 1 else "2-10" if len(tests) <= 10 else "11-25" if len(tests) <= 25 else "26+")]
     if cfg[2]: lab.append("filter")
     if cfg[3]: lab.append("run-ignored")
+    if cfg[5]:
+        io = cfg[5]
+        lab.append("console=%s" % ("pipe" if io[0] == 1 else "file"))
+        lab.append("console-%s" % ("separate-process" if io[1] else "one-process"))
+        if io[2]: lab.append("console-verbose")
+        if io[3]: lab.append("console-colour")
+        lab.append("console-buffer=%s" % ("tiny" if io[4] < 0x100 else "large" if io[4] > 0x1000 else "usual"))
+        if io[1]:
+            w = want_console(cfg, tests)
+            lab.append("console-p:%s" % ("no-child-fails" if not any(r["fails"] for r in w) else "a-child-fails"))
+            if any(len(set(f[0] for f in r["fails"])) > 1 for r in w): lab.append("console-p:fork-after-the-runner-printed-a-failure")
+            if len(w) > 1 and any(r["fails"] for r in w[1:]): lab.append("console-p:child-fails-after-a-summary-was-printed")
+            if any(len([f for f in r["fails"] if f[0] == i]) > 40 for r in w for i in range(len(tests))): lab.append("console-p:child-prints-more-than-a-buffer")
     longest = cur = 0
     for t in tests:
         started = (t["sel"] or not cfg[2]) and (not t["ign"] or cfg[3])
@@ -549,6 +656,12 @@ def extra_oracle(s, o, flavour):
     cfg, tests = parse(s)
     if cfg[1] or o.startswith("!") or o == "skip":
         return None
+    if cfg[5]:
+        try:
+            ob = parse_console_obs(o)
+        except Exception:
+            return None
+        return None if ob["escaped"] else console_oracle(cfg, tests, ob)
     try:
         ob = parse_obs(o)
     except Exception:
@@ -581,9 +694,68 @@ def extra_oracle(s, o, flavour):
 def project(o, flavour):
     """the property fixes only whether the returned value is zero"""
     t = o.split()
-    if len(t) > 1 and t[1] not in ("~", "0"):
-        t[1] = "nonzero"
+    k = 2 if t and t[0] == ":io" else 1
+    if len(t) > k and t[k] not in ("~", "0"):
+        t[k] = "nonzero"
     return " ".join(t)
+
+
+def parse_console_obs(o):
+    """:io <escaped> <ret> <n> items -> dict(escaped, ret, items=[("f", test, file, line, kind) | ("s", ok, nfail|None, tests, run, checks, ign, filt)])"""
+    t = o.split()
+    items = []
+    i = 4
+    for _ in range(int(t[3], 16)):
+        if t[i] == ":f":
+            items.append(("f",) + tuple(int(x, 16) for x in t[i + 1:i + 5])); i += 5
+        else:
+            items.append(("s", t[i + 1] == "1", None if t[i + 2] == "~" else int(t[i + 2], 16)) + tuple(int(x, 16) for x in t[i + 3:i + 8])); i += 8
+    return dict(escaped=t[1] != "0", ret=t[2], items=items)
+
+
+def want_console(cfg, tests):
+    """independent python reading of what the captured bytes must hold: per repetition (records in order, OK?, tests, ran, ignored, filtered, checks)"""
+    sep = cfg[5][1]
+    res = []
+    for r in range(n_reps(cfg)):
+        checks, fails = want_rep(cfg, tests, r)
+        if sep:      # the child prints the failures of its test; the runner adds its own record of a failed test at the TEST's location
+            out = []
+            for i, t in enumerate(tests):
+                mine = [f for f in fails if f[0] == i]
+                out += mine + ([(i, 0, t["line"], 1)] if mine else [])
+            fails = out
+        ntests = len(tests)
+        filt = sum(1 for t in tests if cfg[2] and not t["sel"])
+        ign = sum(1 for t in tests if not (cfg[2] and not t["sel"]) and t["ign"] and not cfg[3])
+        ran = ntests - filt - ign
+        res.append(dict(fails=fails, ok=(not fails and ran + ign > 0), tests=ntests, ran=ran, ign=ign, filt=filt, checks=checks))
+    return res
+
+
+def console_oracle(cfg, tests, ob):
+    want = want_console(cfg, tests)
+    segs = []; cur = []
+    for it in ob["items"]:
+        if it[0] == "f": cur.append(it[1:])
+        else: segs.append((cur, it)); cur = []
+    if cur:
+        return "failure records %s stand behind the last summary" % cur
+    if len(segs) != len(want):
+        return "%d summaries in the captured output, %d repetitions were asked for" % (len(segs), len(want))
+    for r, ((got, sm), w) in enumerate(zip(segs, want)):
+        if got != w["fails"]:
+            miss = [f for f in w["fails"] if got.count(f) < w["fails"].count(f)]
+            more = [f for f in got if got.count(f) > w["fails"].count(f)]
+            return ("repetition %d: the bytes on standard output hold the failure records (test, file, line, kind) %s, the program demands %s%s%s"
+                    % (r, got, w["fails"], "; printed too seldom: %s" % sorted(set(miss)) if miss else "", "; printed too often: %s" % sorted(set(more)) if more else ""))
+        if sm[1] != w["ok"] or (sm[2] is not None) != bool(w["fails"]) or sm[3:5] != (w["tests"], w["ran"]) or sm[6:8] != (w["ign"], w["filt"]):
+            return "repetition %d: summary %s, the program demands ok=%s tests=%d ran=%d ignored=%d filtered=%d" % (r, sm, w["ok"], w["tests"], w["ran"], w["ign"], w["filt"])
+        if not cfg[5][1] and (sm[5] != w["checks"] or sm[2] != (len(w["fails"]) or None)):
+            return "repetition %d: summary %s, the program executed %d counted checks and had %d failures" % (r, sm, w["checks"], len(w["fails"]))
+    if ob["ret"] != "~" and (ob["ret"] == "0") != all(w["ok"] for w in want):
+        return "returned value %s although the repetitions are %s" % (ob["ret"], ["OK" if w["ok"] else "Errors" for w in want])
+    return None
 
 
 def parse_obs(o):
@@ -605,8 +777,27 @@ def parse_obs(o):
 def signature(s, o):
     cfg, tests = parse(s)
     mode = "cli" if cfg[0] else "registry"
+    if cfg[5]:
+        mode = "console%s on a %s" % (" -p" if cfg[5][1] else "", "pipe" if cfg[5][0] == 1 else "file")
     if o.startswith("!"):
         return mode + ": " + o[:80]
+    if cfg[5]:
+        try:
+            ob = parse_console_obs(o)
+        except Exception:
+            return mode + ": unreadable observation"
+        if ob["escaped"]:
+            return mode + ": an exception escaped the run"
+        want = want_console(cfg, tests)
+        got = [it[1:] for it in ob["items"] if it[0] == "f"]
+        dem = [f for w in want for f in w["fails"]]
+        if any(got.count(f) < dem.count(f) for f in dem):
+            return mode + ": a failure record does not reach standard output (printed fewer times than it happened)"
+        if any(got.count(f) > dem.count(f) for f in got):
+            return mode + ": a failure record stands more often on standard output than it happened"
+        if sum(1 for it in ob["items"] if it[0] == "s") != len(want):
+            return mode + ": the number of summaries on standard output is not the number of repetitions"
+        return mode + ": records, summaries or returned value differ from what the program demands"
     try:
         ob = parse_obs(o)
     except Exception:
@@ -661,11 +852,20 @@ def shrink(s):
                     t2 = dict(t); t2[key] = t[key][:k] + [x[3]] + t[key][k + 1:]
                     yield unparse(cfg, tests[:i] + [t2] + tests[i + 1:])
     # simpler configuration
-    if cfg[4] > 2: yield unparse(cfg[:4] + [cfg[4] - 1], tests)
-    if cfg[4] == 0: yield unparse(cfg[:4] + [2], tests)
-    if cfg[4] > 1: yield unparse(cfg[:4] + [1], tests)
-    if cfg[0]: yield unparse([0] + cfg[1:4] + [1], tests)
+    if cfg[4] > 2: yield unparse(cfg[:4] + [cfg[4] - 1] + cfg[5:], tests)
+    if cfg[4] == 0: yield unparse(cfg[:4] + [2] + cfg[5:], tests)
+    if cfg[4] > 1: yield unparse(cfg[:4] + [1] + cfg[5:], tests)
+    if cfg[0] and not cfg[5]: yield unparse([0] + cfg[1:4] + [1, None], tests)
     if cfg[3]: yield unparse(cfg[:3] + [0] + cfg[4:], tests)
+    # simpler console mode: no -v, no -c, the usual buffer, one process, a pipe; no console mode at all
+    io = cfg[5]
+    if io:
+        if io[2]: yield unparse(cfg[:5] + [[io[0], io[1], 0, io[3], io[4]]], tests)
+        if io[3]: yield unparse(cfg[:5] + [[io[0], io[1], io[2], 0, io[4]]], tests)
+        if io[4] != 0x1000: yield unparse(cfg[:5] + [[io[0], io[1], io[2], io[3], 0x1000]], tests)
+        if io[1]: yield unparse(cfg[:5] + [[io[0], 0, io[2], io[3], io[4]]], tests)
+        if io[0] != 1: yield unparse(cfg[:5] + [[1] + io[1:]], tests)
+        yield unparse(cfg[:5] + [None], tests)
     # fewer statements
     for i, t in enumerate(tests):
         for p in range(3):
@@ -692,7 +892,14 @@ LEVEL_TEXT = ("Machine-checked (Coq) theorems over an executable model of the te
               "every test (hence no slot overflow for any number of consecutive failing tests), true summary counts, OK iff no failure and "
               "something ran or was ignored, exit value zero iff every repetition OK; a check through any of the 40 assert entry points (20 UtestShell "
               "member functions, 19 C-interface functions, the CHECK_COMPARE macro) adds exactly `counted kind agree` to the checks figure and, when it "
-              "fails, exactly one failure record at the location it was handed (C01_checkk_step, C01_checkk_wants, C01_uncounted_only_macro). PARTIAL: which operands make a given "
+              "fails, exactly one failure record at the location it was handed (C01_checkk_step, C01_checkk_wants, C01_uncounted_only_macro). "
+              "The bytes on standard output: a model of a buffered stdio stream shared by the runner and a forked child (buffer = process state, fork copies it, "
+              "_exit drops it, exit / flush / a full buffer write it out); with the code's discipline (ConsoleTestOutput::printBuffer flushes after every fputs) "
+              "the file holds every printed chunk exactly once, for every capacity (C01_stdio_flush_each); the right disciplines are exactly that one and "
+              "'flush before fork and when the child leaves' (C01_stdio_once_iff), the seeded 'no flush' loses the child's record and duplicates the runner's "
+              "(C01_stdio_noflush_refuted, C01_console_noflush_refuted); for every valid scenario run through the console, in one process or with -p, the records "
+              "in the captured bytes are exactly the demanded ones, one summary per repetition with the true verdict, returned value zero iff every repetition OK "
+              "(C01_console_records_once, C01_console_summaries_true, C01_console_exit_value, C01_console_independent). PARTIAL: which operands make a given "
               "assert function fail is not modelled here (the comparison functions are C03/C13/C14's business): a check statement carries `agree`; "
               "real longjmp/unwinding is exhibited only by the "
               "instrumented runs (ASan/UBSan, builds with and without exceptions), which compare the extracted model with the real classes.")
